@@ -295,6 +295,24 @@ def integer_conversion(paths, with_pairs):
     stored_kinds = set()
     conv_guard = set()
     loc = '?'
+    skipped = None
+    for p, pairs in with_pairs:
+        vals = {id(v_): (k_, v_) for k_, v_, _ in pairs}
+        n_stores = 0
+        n_attempts = sum(1 for e2 in p.events if e2.kind == 'mayraise' and 'int()' in (e2.data.get('why') or ''))
+        for ev in p.events:
+            if ev.kind != 'item-store':
+                continue
+            x0 = ev.data['value']
+            for _h in range(6):
+                if isinstance(x0, Unk) and x0.src and x0.src[0] == 'call' and x0.src[1] == 'int':
+                    x0 = x0.src[2][0]
+                elif isinstance(x0, Unk) and x0.src and x0.src[0] == 'method' and x0.src[2] == 'decode':
+                    x0 = x0.src[1]
+            if id(x0) in vals:
+                n_stores += 1
+        if n_attempts < n_stores and skipped is None:
+            skipped = (n_stores, n_attempts)
     for p, pairs in with_pairs:
         vals = {id(v_): (k_, v_) for k_, v_, _ in pairs}
         for ev in p.events:
@@ -349,6 +367,10 @@ def integer_conversion(paths, with_pairs):
                         guards.add(g.about)
     if not has_int:
         out.append(('integer-conversion', False, 'integer-valued option values are never converted to int', loc))
+    elif skipped is not None:
+        out.append(('integer-conversion', False, 'on some accepting path %d option value(s) are stored but int() is attempted only %d '
+                    'time(s): whether an integer-looking value is converted depends on something other than the value (e.g. its key)'
+                    % skipped, loc))
     elif idiom == 'try-except' and has_str:
         out.append(('integer-conversion', True, 'int() attempted on every value under except ValueError: covers -?[0-9]+', loc))
     elif idiom == 'unguarded':
